@@ -24,7 +24,7 @@ for p in props:
             "evidence_file": f"evidence/{p}.json",
             "replay_cmd_template": "./check --replay {path}",
             "engine": "vsym",
-            "level_claimed": {"category": "model_checking", "text": c["level"], "design_ref": c.get("design_ref", "DESIGN.md §5 " + p)},
+            "level_claimed": {"category": c.get("category", "model_checking"), "text": c["level"], "design_ref": c.get("design_ref", "DESIGN.md §5 " + p)},
             "level_note": c["note"],
             "technique": c.get("technique", "bounded symbolic execution of the real code (go/ssa -> SMT-LIB2), solver-decided assertions, native replay of models"),
         })
